@@ -63,10 +63,13 @@ Geom(g) ==
     [] g = "quad2"  -> [ndim |-> 2, dirs |-> << <<20, 0>>, <<65, 0>>, <<110, 0>>, <<155, 0>> >>]
     [] g = "xyz3"   -> [ndim |-> 3, dirs |-> << <<0, 0>>, <<90, 0>>, <<0, 90>> >>]
     [] g = "hor3"   -> [ndim |-> 3, dirs |-> << <<0, 0>>, <<90, 0>> >>]
+    \* a single horizontal direction: nothing identifies the second range, the fit locks it to the first one
+    \* (lock_iso2d is then in force, requested or not)
+    [] g = "xz3"    -> [ndim |-> 3, dirs |-> << <<0, 0>>, <<0, 90>> >>]
     [] g = "four3"  -> [ndim |-> 3, dirs |-> << <<0, 0>>, <<60, 0>>, <<120, 0>>, <<0, 90>> >>]
     [] g = "vfirst3" -> [ndim |-> 3, dirs |-> << <<0, 90>>, <<0, 0>>, <<90, 0>> >>]
     [] g = "obl3"   -> [ndim |-> 3, dirs |-> << <<0, 0>>, <<90, 0>>, <<0, 90>>, <<45, 30>> >>]
-Geoms == {"line1", "omni2", "ortho2", "rot2", "skew2", "tri2", "quad2", "xyz3", "hor3", "four3", "vfirst3", "obl3"}
+Geoms == {"line1", "omni2", "ortho2", "rot2", "skew2", "tri2", "quad2", "xyz3", "hor3", "xz3", "four3", "vfirst3", "obl3"}
 \* the variogram map ignores the directions: one geometry per space dimension
 VMapGeoms == {"ortho2", "four3"}
 
@@ -137,6 +140,18 @@ ConsSet(c) ==
     [] c = "sr-eq"          -> << It("franged", "SILL", 0, 0, "EQUAL", 400000) >>
     [] c = "sl-eq"          -> << It("lranged", "SILL", 0, 0, "EQUAL", 250000) >>
     [] c = "s-neg"          -> << It("first", "SILL", 0, 0, "EQUAL", -100000) >>
+    \* two bounds on the same sill: a box above every attainable optimum (the lower bound binds), below it (the
+    \* upper bound binds), in both declaration orders and with a duplicated item
+    [] c = "s0-box-high"    -> << It("first", "SILL", 0, 0, "LOWER", 1500000), It("first", "SILL", 0, 0, "UPPER", 2 * M) >>
+    [] c = "s0-box-high-rev" -> << It("first", "SILL", 0, 0, "UPPER", 2 * M), It("first", "SILL", 0, 0, "LOWER", 1500000) >>
+    [] c = "s0-box-high-dup" -> << It("first", "SILL", 0, 0, "LOWER", 1500000), It("first", "SILL", 0, 0, "UPPER", 2 * M),
+                                   It("first", "SILL", 0, 0, "LOWER", 1500000), It("first", "SILL", 0, 0, "UPPER", 2 * M) >>
+    [] c = "s0-box-low"     -> << It("first", "SILL", 0, 0, "LOWER", 10000), It("first", "SILL", 0, 0, "UPPER", 30000) >>
+    [] c = "s0-box-low-rev" -> << It("first", "SILL", 0, 0, "UPPER", 30000), It("first", "SILL", 0, 0, "LOWER", 10000) >>
+    [] c = "sr-box-high"    -> << It("lranged", "SILL", 0, 0, "LOWER", 1200000), It("lranged", "SILL", 0, 0, "UPPER", 1800000) >>
+    [] c = "sr-box-high-rev" -> << It("lranged", "SILL", 0, 0, "UPPER", 1800000), It("lranged", "SILL", 0, 0, "LOWER", 1200000) >>
+    [] c = "r0-box-rev"     -> << It("franged", "RANGE", 0, 0, "UPPER", 30 * M), It("franged", "RANGE", 0, 0, "LOWER", 20 * M) >>
+    [] c = "p-box-rev"      -> << It("param", "PARAM", 0, 0, "UPPER", 900000), It("param", "PARAM", 0, 0, "LOWER", 600000) >>
     [] c = "s11-up"         -> << It("first", "SILL", 1, 1, "UPPER", 100000) >>
     [] c = "s10-eq"         -> << It("franged", "SILL", 1, 0, "EQUAL", 0) >>
     \* rotation angle (about Z)
@@ -159,7 +174,9 @@ ConsSet(c) ==
                                   It("franged", "ANGLE", 0, 0, "EQUAL", 25 * M) >>
 ConsQuick == {"r0-up-out", "r0-up-in", "r0-lo-out", "r0-eq", "r0-box", "r0-box-empty", "rl-up-out", "r1-up-out", "r1-lo-out",
               "r1-eq", "rl1-up-out", "r2-up-out", "s0-up", "s0-lo", "sr-lo", "sr-eq", "s-neg", "s10-eq", "a-eq", "a-box",
-              "al-eq", "p-eq", "p-lo", "p-up", "doc-r-up-s-lo", "doc-r-eq-s-eq", "doc-spde", "r-a-eq"}
+              "al-eq", "p-eq", "p-lo", "p-up", "doc-r-up-s-lo", "doc-r-eq-s-eq", "doc-spde", "r-a-eq",
+              "s0-box-high", "s0-box-high-rev", "s0-box-high-dup", "s0-box-low", "s0-box-low-rev", "sr-box-high", "sr-box-high-rev",
+              "r0-box-rev", "p-box-rev"}
 ConsRich  == {"r0-lo-in", "r0-eq-true", "rl-lo-far", "r2-eq", "r01-eq", "s0-eq", "sr-up", "sl-eq", "s11-up", "a-eq0", "a-lo", "p-box"}
 ConsNames == ConsQuick \cup (IF Rich THEN ConsRich ELSE {})
 
@@ -227,6 +244,10 @@ BaseOf(variant) ==
     [] variant = "D" -> [entry |-> "fit", geom |-> "four3", truth |-> "aniso", recipe |-> "noisy", empty |-> "none",
                          types |-> <<"SPHERICAL", "EXPONENTIAL">>, cons |-> "none", csill |-> 0, opt |-> {},
                          wmode |-> 2, maxiter |-> 30]
+    \* 3-D, one horizontal and the vertical direction: the geometry in which lock_iso2d is honoured
+    [] variant = "E" -> [entry |-> "fit", geom |-> "xz3", truth |-> "simple", recipe |-> "noisy", empty |-> "none",
+                         types |-> <<"NUGGET", "SPHERICAL">>, cons |-> "none", csill |-> 0, opt |-> {},
+                         wmode |-> 2, maxiter |-> -1]
 Variants == DOMAIN VaryOf
 
 Values(d) ==
